@@ -120,8 +120,13 @@ def in_range(fn, c):
     if c.get("ids") is not None:
         ok &= 1 <= len(c["ids"]) <= 256 and all(0 <= int(x) <= 255 for x in c["ids"])
     if fn == "GetNGSetupRequest":
-        ok &= len(bytes.fromhex(c["plmn"])) == 3 and 22 <= int(c["bits"]) <= 32 and 1 <= len(bytes.fromhex(c["name"])) <= 150
+        ok &= len(bytes.fromhex(c["plmn"])) == 3 and 22 <= int(c["bits"]) <= 32 and 1 <= len(bytes.fromhex(c["name"])) <= NAME_MAX[0]
     return bool(ok)
+
+
+# 150 = the extension root of RANNodeName (SIZE(1..150, ...)), the range the wrappers stream and the Coq builder model use; the
+# long-names stream judges legal extension values (up to 400 characters) and raises it for its own calls
+NAME_MAX = [150]
 
 
 def judge_call(c, o, plmn):
@@ -442,12 +447,43 @@ OUTSIDE_CLAUSE = {
 }
 
 
+class LongNames(Wrappers):
+    """RAN node names beyond the extension root of RANNodeName (SIZE(1..150, ...)): legal extension values, judged by the
+    independent decoder alone (the Coq builder model covers the root range)"""
+    name = "long-names"
+    model_check = None
+    spec_check = None
+    model_out = None
+
+    def generate(self, rng, tier):
+        cases = []
+        for ln in [151, 152, 200, 255, 256, 400]:
+            c = gen_setup(rng, 60 + ln)
+            c["name"] = "".join(rng.choice(PRINTABLE) for _ in range(ln)).encode().hex()
+            cases.append({"calls": [c]})
+        return cases
+
+    def direct_check(self, c, o):
+        plmn = None
+        for call, res in zip(c["calls"], o.get("results", [])):
+            if "hex" not in res:
+                return "%s refuses a RAN node name of %d characters (a legal extension value): %s" % (call["fn"], len(call["name"]) // 2, res.get("err") or res.get("panic"))
+            NAME_MAX[0] = 400
+            try:
+                msg = judge_call(call, res, plmn)
+            finally:
+                NAME_MAX[0] = 150
+            if msg:
+                return "%s: %s" % (call["fn"], msg)
+        return None
+
+
 class C13(Check):
     pid = "C13"
     title = "gNB-side NGAP messages carry the caller's values and all mandatory IEs"
     prop_files = ["Properties/C13.v"]
     extra_targets = ["Model/Builders13.vo"]          # the stream needs the executable model even when a proof breaks
-    streams = [Wrappers()]
+    streams = [Wrappers(), LongNames()]
     trusted = ["Coq 8.16.1 kernel incl. vm_compute (no native_compute)", "no axioms (Print Assumptions: closed under the global context)",
                "translator harness/gen_builders.go (gen-builders): sentinel probing of all 52 Build* functions and 14 Get* wrappers with three sentinel sets per variant, "
                "merged leaf by leaf (a leaf that differs without being a sentinel makes the translator fail for the emulator's messages); wrappers are probed through "
